@@ -1,3 +1,4 @@
+import EmmetProofs.WrapLines
 import EmmetProofs.TextVerbatim
 import EmmetProofs.TextLex
 /-! # C04 — text is data (token level) -/
@@ -27,5 +28,28 @@ example : Txt [42, 62, 123, 120, 125, 92, 125] [42, 62, 123, 120, 125, 125] :=
   .chr 42 _ _ (by decide) (by decide) (by decide) (by decide)
     (.chr 62 _ _ (by decide) (by decide) (by decide) (by decide)
       (.nest [120] [120] [92, 125] [125] (.chr 120 [] [] (by decide) (by decide) (by decide) (by decide) .nil) (.esc 125 [] [] .nil)))
+
+/-- wrap clause on the converter model, `name*` with ANY list of lines (no repeat limit, fewer than 10^6 non-blank lines): exactly one copy
+per non-blank line, in order; copy `i` is the element whose only content is line `i` trimmed, taken verbatim (one string token: nothing in
+it is read as abbreviation syntax or numbering); blank lines make no copy -/
+theorem C04_wrap_lines (v : T.Str) (c fuel : Nat) (ls : List T.Str) (vars : Option (List (T.Str × T.Str)))
+    (hn : (T.nonBlank ls).length < 1000000) (hf : (T.nonBlank ls).length + 5 ≤ fuel) :
+    T.convert [T.wrapLeaf v c] { text := .lines ls, variables := vars, maxRepeat := none } fuel = .ok (T.wrapCopies v (T.nonBlank ls)) :=
+  T.convert_wrap v c fuel ls vars hn hf
+
+/-- the same inside any converter state (the element may stand anywhere in an abbreviation): `convert_statement` on `name*` makes the copies
+for the state's non-blank lines, marks the text as inserted and pays one unit of the repeat guard per copy -/
+theorem C04_wrap_statement (v : T.Str) (c fuel : Nat) (st : T.CState) (ls : List T.Str)
+    (ht : st.text = .lines ls) (hins : st.inserted = false) (hg : (st.cleanText.length : Int) < st.guard)
+    (hf : st.cleanText.length + 3 ≤ fuel) :
+    T.convertStatement (fuel + 1) (T.wrapLeaf v c) st =
+      .ok (T.wrapCopies v st.cleanText,
+           { st with inserted := true, textInserted := st.textInserted || decide (0 < st.cleanText.length),
+                     guard := st.guard - st.cleanText.length }) := T.convertStatement_wrap v c fuel st ls ht hins hg hf
+
+/-- non-vacuity: `li*` with the lines "a", "  ", " b " makes two copies holding `a` and `b` -/
+example : T.wrapCopies [108, 105] (T.nonBlank [[97], [32, 32], [32, 98, 32]])
+    = [T.lineCopy [108, 105] 2 0 [97], T.lineCopy [108, 105] 2 1 [32, 98, 32]] := by rfl
+example : T.lineCopy [108, 105] 2 1 [32, 98, 32] = .mk (some [108, 105]) (some [.str [98]]) none [] (some ⟨2, 1, true⟩) false := by rfl
 
 end EmmetProps
